@@ -57,3 +57,41 @@ PROPS = {
         ],
     },
 }
+
+SM2_ASSUME = BASE_ASSUME + [
+    "reference SM2 = affine BigUint arithmetic written from GB/T 32918, anchored per run by the GM/T 0003.5 Annex examples (public key, signature r/s, ciphertext C1/C3/C2, key agreement K/S_B/S_A)",
+    "random scalars of the library are observed / overridden through the cfg(gm_rs_verif) hook at the RNG byte source",
+]
+
+PROPS.update({
+    "C03": {
+        "level": "exploration",
+        "profiles": BOTH,
+        "rule": "Sm2PrivateKey::sign / Sm2PublicKey::verify calls over edge and random keys, default/explicit/empty/long IDs, message lengths 0..4096: with an injected nonce the 64 bytes must equal the reference signer's; with a free nonce r,s in [1,n-1], library and reference verifiers accept, and the nonce recovered with d equals the hook-observed draw; reference-made and OpenSSL-made signatures must be accepted. Distinct by (d, id, msg, k) or by signature bytes",
+        "assumptions": SM2_ASSUME + ["OpenSSL 3.5.6 signature corpus (144 signatures, default and explicit distid) frozen in /verif/corpus", "retry branches of signing (r=0, r+k=n, s=0) are unreachable without a hash preimage"],
+    },
+    "C04": {
+        "level": "fault_enumeration",
+        "profiles": BOTH,
+        "rule": "per valid signature (reference-made, OpenSSL-made, crafted small-s): all 512 single-bit flips, r/s substitutions {0,1,n-1,n,n+1,2^256-1}, s=n-r, swap, +n aliases, changed message/ID/key, every length 0..=130, random pairs; verify must return Err whenever the reference verifier rejects (reference consulted only when the library accepts) and for every non-64-byte input; a panic is a violation. Distinct by (fault class, signature bytes, message, id, key)",
+        "assumptions": SM2_ASSUME + ["the t = r+s = 0 test and the r >= n test are observationally redundant on constructible inputs (stated in notes)"],
+    },
+    "C05": {
+        "level": "exploration",
+        "profiles": BOTH,
+        "rule": "Sm2PublicKey::encrypt / Sm2PrivateKey::decrypt / util::kdf over all message lengths 1..=300 x 2 orders x 2 encodings, longer messages to 2^16, zero/leading-zero messages: injected k -> ciphertext equals the reference byte for byte; free k -> reference decrypts, C1 = [k]G for the drawn k; reference-made and OpenSSL-made ciphertexts decrypt; kdf(z,klen) equals reference for klen 1..=1100. Distinct by ciphertext bytes / (z, klen)",
+        "assumptions": SM2_ASSUME + ["OpenSSL SM2Cipher corpus (144 documents) re-framed into the four raw layouts by the harness"],
+    },
+    "C06": {
+        "level": "fault_enumeration",
+        "profiles": BOTH,
+        "rule": "per sample ciphertext (4 layouts): every single-bit flip, every truncation, every illegal point-format byte, C1 replaced by off-curve / invalid-curve / >=p-aliased / non-residue points carrying a tag that a check-less decryptor would accept (crafted with the private key), substituted C1, zeroed C3, other component order; decrypt may return Ok only for the untouched ciphertext. Distinct by (fault class, tampered bytes, key, layout)",
+        "assumptions": SM2_ASSUME,
+    },
+    "C11": {
+        "level": "exploration",
+        "profiles": BOTH,
+        "rule": "field functions (fp/fn add, sub, mul, sqr, double, triple, neg, div2, inv, pow, sqrt, Montgomery conversions, u256/u512 primitives) on boundary-limb, near-modulus, crafted-product and random operands vs BigUint; all 32x255 table entries and single-byte scalars (exhaustive); group law on re-randomised Jacobian representations incl. P=Q same/different Z, P=-Q, infinity forms; scalars 0,1,2,n-1,n,n+1,n+j (j<=300),2^256-1,nibbles,random. Distinct by operand values",
+        "assumptions": SM2_ASSUME + ["affine conversion of the point at infinity is unspecified and excluded"],
+    },
+})
